@@ -148,6 +148,24 @@ def grep_forbidden():
     return hits
 
 
+def import_closure(modules):
+    """the SvModel modules a set of modules imports, transitively (from the `import` lines of the sources)"""
+    seen, todo = set(), list(modules)
+    while todo:
+        m = todo.pop()
+        if m in seen:
+            continue
+        seen.add(m)
+        p = os.path.join(LEAN, *m.split('.')) + '.lean'
+        if not os.path.exists(p):
+            continue
+        for line in open(p):
+            mm = re.match(r'import\s+(SvModel\S*|Main)', line)
+            if mm:
+                todo.append(mm.group(1))
+    return seen
+
+
 def lean_stage(modules, theorems, need_driver=True):
     """translate + build + audit, serialised across concurrent checks. Returns a dict describing what holds."""
     t0 = time.time()
@@ -395,6 +413,7 @@ def run_chunk(cfg, exe, chunk):
             hw.append([])
         start = nxt
     st = res['stats']
+    diverged = set()     # cases whose implementation and model STATES already differ: later lines are not comparable
     for i, l in enumerate(lines):
         ci, li = owner[i]
         if li < 0:
@@ -416,10 +435,16 @@ def run_chunk(cfg, exe, chunk):
                 res['distinct'].add((c['cls'], c['state'], c.get('fault'), f[5], 'realloc' if ' A' in ' ' + f[4] else 'inplace'))
         if h == '<crashed>':
             continue
-        if h != m:
+        if ci in diverged:
+            # attributed to the first divergence of this history; the monitors (real code only) still run below
+            st['lines_after_divergence_not_compared'] = st.get('lines_after_divergence_not_compared', 0) + 1
+        elif h != m:
+            fm = fields(m)
+            if f is None or fm is None or f[1:4] != fm[1:4]:
+                diverged.add(ci)
             for ch in CHANNELS:
                 if project(h, ch) != project(m, ch):
-                    k = ch + '|' + c['cls']
+                    k = ch + '|' + c['cls'] + ('|fault' if ' @' in l else '')
                     res['discount'][k] = res['discount'].get(k, 0) + 1
                     lst = res['dis'].setdefault(k, [])
                     if len(lst) < 3:
